@@ -232,9 +232,12 @@ impl CoverageFormat2<'_> {
                 }
             })
             .ok()
-            .map(|idx| {
+            .and_then(|idx| {
                 let rec = &self.range_records()[idx];
-                rec.start_coverage_index() + gid.to_u16() - rec.start_glyph_id().to_u16()
+                // the start coverage index comes from the font: a malformed
+                // record must not overflow the index arithmetic
+                rec.start_coverage_index()
+                    .checked_add(gid.to_u16() - rec.start_glyph_id().to_u16())
             })
     }
 
